@@ -64,7 +64,7 @@ var hostileKeys = []sym{
 	{"open", "a["}, {"close", "a]"}, {"lone-open", "["}, {"lone-close", "]"},
 	{"deep", "a[b][c][d]"}, {"deep-known", "A[B][C][D]"},
 	{"huge-index", "Strs[99999999]"}, {"empty-index", "Strs[]"}, {"index0", "Strs[0]"},
-	{"items-max", "Items[16000][X]"}, {"items-over", "Items[16001][X]"}, {"items-huge", "Items[9999999][X]"}, {"items-neg", "Items[-1][X]"},
+	{"items-max", "Items[16000][X]"}, {"items-over", "Items[16001][X]"}, {"items-huge", "Items[1999999][X]"}, {"items-neg", "Items[-1][X]"},
 	{"items-overflow", "Items[9223372036854775808][X]"}, {"items-dotted", "Items.3.Y"}, {"items-neg-dotted", "Items.-1.X"},
 	{"double-open", "a[[b]]"}, {"reversed", "a][b"}, {"empty-key", ""}, {"dot", "."}, {"trailing-dot", "Str."},
 	{"known-str", "Str"}, {"known-strs", "Strs"}, {"known-int", "I"}, {"known-ints", "Is"}, {"known-bool", "B"},
